@@ -341,11 +341,14 @@ def grep_gate():
 
 
 def prop_files(pid):
-    """Property-theorem files of a property: Properties_<pid>.v and, when present, PropertiesSrc_<pid>.v
-    (obligations that tie model functions to the Gallina text regenerated from the C source)."""
+    """Property-theorem files of a property: Properties_<pid>.v first, then every other coq/Properties<Tag>_<pid>.v
+    (PropertiesSrc_<pid>.v = obligations that tie model functions to the Gallina text regenerated from the C source;
+    other tags = parts of one property owned by different topic models, e.g. PropertiesTrie_C17.v)."""
     fs = ["Properties_%s" % pid]
-    if os.path.exists(os.path.join(COQ, "PropertiesSrc_%s.v" % pid)):
-        fs.append("PropertiesSrc_%s" % pid)
+    for p in sorted(glob.glob(os.path.join(COQ, "Properties?*_%s.v" % pid))):
+        b = os.path.basename(p)[:-2]
+        if b not in fs:
+            fs.append(b)
     return fs
 
 
